@@ -230,9 +230,11 @@ where
     node: Node<'tree, D>,
     env: &mut Cow<MetaVarEnv<'tree, D>>,
   ) -> Option<Node<'tree, D>> {
+    // match the negated rule against a scratch env: whatever it binds must not leak to the caller
+    let mut scratch = Cow::Borrowed(env.as_ref());
     self
       .not
-      .match_node_with_env(node.clone(), env)
+      .match_node_with_env(node.clone(), &mut scratch)
       .xor(Some(node))
   }
 }
